@@ -189,11 +189,16 @@ class TLCResult:
                 if line.startswith('"BEH '):
                     yield json.loads(unescape(line.strip())[4:])
 
-    def lines(self, prefix):
+    def lines(self, prefix, keep=None):
+        """Yield the JSON values TLC printed as "<prefix> <json>"; keep(i) may drop a line before it is parsed."""
         q = '"' + prefix + " "
+        i = 0
         with open(self.path, errors="replace") as fh:
             for line in fh:
                 if line.startswith(q):
+                    i += 1
+                    if keep is not None and not keep(i):
+                        continue
                     yield json.loads(unescape(line.strip())[len(prefix) + 1:])
 
     def tail(self, n=40):
@@ -205,6 +210,10 @@ class TLCResult:
 def unescape(s):
     """Undo TLC's printing of a string value: "..." with \\" and \\\\ escapes."""
     if s.startswith('"') and s.endswith('"'):
+        try:
+            return json.loads(s)       # TLC's escapes are JSON's: C speed instead of a Python loop
+        except ValueError:
+            pass
         s = s[1:-1]
     out = []
     i = 0
